@@ -25,6 +25,21 @@ def make_plan(seed: int, tier: str, opts: dict) -> dict:
         if _sp2.in_S(s3) is None:
             spec = s3
             fast = True
+    train = None
+    if r.random() < opts.get("trainable_p", 0.15):
+        # a trainable-delay connection whose delay is set through init_delays (params): the threaded runtime delays the messages by d, and
+        # the compiled replay must apply the same d (it is carried in the graph state, not in the connection object)
+        cands = [i for i, c_ in enumerate(spec["conns"]) if not c_["blocking"] and c_["jitter"] == "L"]
+        if cands:
+            ci = r.choice(cands)
+            c_ = spec["conns"][ci]
+            per_u = 1.0 / spec["nodes"][c_["src"]]["rate"]
+            per = min(per_u, 1.0 / spec["nodes"][c_["dst"]]["rate"])
+            dmin = round(per * r.choice([0.0, 0.1]), 6)
+            dmax = round(dmin + per_u * r.choice([0.6, 1.0, 1.4]), 6)
+            c_["dist"] = ["train", dmin, dmax, round(dmin + r.random() * (dmax - dmin), 6)]
+            c_["delay"] = round(min(per, dmin + 0.5 * (dmax - dmin)), 6)
+            train = dict(conn=ci, d=round(dmin + r.random() * (dmax - dmin), 6))
     n_eps = r.choice([1, 2, 2, 3])
     eps = [driver.gen_episode(r, j, open_loop=spec["open_loop"], nsteps=r.randint(3, opts.get("max_steps", 9)), endings=("stop",), override_p=0.0) for j in range(n_eps)]
     pairs = [(m, p) for m in compiled.MODES for p in (True, False)]
@@ -37,12 +52,13 @@ def make_plan(seed: int, tier: str, opts: dict) -> dict:
             pairs[0] = (r.choice(["gen", "top"]), pairs[0][1])  # the uniform (scan) execution paths are what many slots per kind stress
     for ep in eps:
         ep["until_active"] = True
-    wall = r.random() < opts.get("wall_p", 0.15)  # recordings made under WALL_CLOCK (virtual clock) must replay just the same
+    wall = r.random() < opts.get("wall_p", 0.15) and train is None  # recordings made under WALL_CLOCK (virtual clock) must replay just the same
+    # (not combined with a trainable delay: under the wall clock messages arrive when they arrive, a trainable delay only exists in the compiled replay)
     if wall:
         for ep in eps:
             ep["nsteps"] = min(ep["nsteps"], 6)
             ep["rtf"] = 1
-    return dict(spec=spec, seed=seed, episodes=eps, clock="wall" if wall else "sim", line_rate=0.0, compile=[dict(mode=m, prune=p, api=r.choice(APIS)) for m, p in pairs[:opts.get("pairs", 1)]])
+    return dict(spec=spec, seed=seed, episodes=eps, train=train, hash_recv=train is None, clock="wall" if wall else "sim", line_rate=0.0, compile=[dict(mode=m, prune=p, api=r.choice(APIS)) for m, p in pairs[:opts.get("pairs", 1)]])
 
 
 def index_events(evs):
@@ -56,9 +72,11 @@ def index_events(evs):
     return d, dup
 
 
-def compare_events(a, c):
-    """Field-by-field comparison of an asynchronous and a compiled probe event of the same (node, eps, seq)."""
-    for f in ("ts", "rng", "h0", "h1"):
+def compare_events(a, c, recv_tol: float = 0.0):
+    """Field-by-field comparison of an asynchronous and a compiled probe event of the same (node, eps, seq).
+    recv_tol > 0: receive times are compared with that tolerance (trainable-delay connections: the threaded runtime rounds sent + d to
+    1 us in float64, the compiled runtime recomputes sent + d in float32; both mean the same instant)."""
+    for f in ("ts", "rng", "h0"):
         if a[f] != c[f]:
             return f, a[f], c[f]
     if len(a["inputs"]) != len(c["inputs"]):
@@ -71,17 +89,33 @@ def compare_events(a, c):
             xa = [v for v, r_ in zip(ia[f], real) if r_]
             xc = [v for v, r_ in zip(ic[f], real) if r_]
             if xa != xc:
+                if f == "recv" and recv_tol > 0:
+                    fa = onp.asarray(xa, dtype=onp.uint32).view(onp.float32).astype(float)
+                    fc = onp.asarray(xc, dtype=onp.uint32).view(onp.float32).astype(float)
+                    if len(fa) == len(fc) and onp.all(onp.abs(fa - fc) <= recv_tol):
+                        continue
                 return f"input{j}.{f}", xa, xc
         for f in ("dsrc", "deps", "dseq", "dh"):
             if ia[f] != ic[f]:
                 return f"input{j}.{f}", ia[f], ic[f]
+    if a["h1"] != c["h1"]:
+        return "h1", a["h1"], c["h1"]
     return None
 
 
 def run_plan(plan: dict, replay=None) -> dict:
     import jax
 
-    ro = driver.execute(plan, replay=replay)
+    hook = None
+    if plan.get("train"):
+        from simrex import spec as _sp
+
+        def hook(nodes_):
+            c_ = plan["spec"]["conns"][plan["train"]["conn"]]
+            dst = plan["spec"]["nodes"][c_["dst"]]["name"]
+            nodes_[dst].delay_override = {_sp.input_name(plan["spec"], c_): plan["train"]["d"]}
+
+    ro = driver.execute(plan, replay=replay, after_build=hook)
     res = dict(plan=plan)
     if ro.status in ("harness_error", "replay_diverged", "build_error"):
         res.update(status="harness_error", detail=f"{ro.status}: {ro.harness_error or ro.detail}")
@@ -131,7 +165,7 @@ def run_plan(plan: dict, replay=None) -> dict:
                         viol.append(dict(clause="c01-compiled-step-without-asynchronous-counterpart", signature="c01-extra", episode=e, node=name, seq=key[2], compile=cc))
                     continue
                 compared += 1
-                d = compare_events(aev, cev)
+                d = compare_events(aev, cev, recv_tol=2e-6 if plan.get("train") else 0.0)
                 if d is not None:
                     viol.append(dict(clause="c01-step-differs-between-runtimes", signature="c01-diff:" + d[0].split(".")[-1], episode=e, node=idx2name[key[0]], seq=key[2], field=d[0],
                                      asynchronous=str(d[1])[:200], compiled=str(d[2])[:200], compile=cc))
@@ -164,7 +198,7 @@ def run_plan(plan: dict, replay=None) -> dict:
         if viol:
             break
     jax.clear_caches()
-    res.update(common.summarise(ro, plan, extra_sums=dict(wall_clock_runs=1 if plan.get("clock") == "wall" else 0, steps_compared=compared, steps_identical=matched, graph_build_s=graph_s, compiled_run_s=run_s, **stats)))
+    res.update(common.summarise(ro, plan, extra_sums=dict(trainable_runs=1 if plan.get("train") else 0, wall_clock_runs=1 if plan.get("clock") == "wall" else 0, steps_compared=compared, steps_identical=matched, graph_build_s=graph_s, compiled_run_s=run_s, **stats)))
     res["dicts"]["compile_modes"] = {}
     for cc in plan["compile"]:
         k = f"{cc['mode']}/{'prune' if cc['prune'] else 'noprune'}/{cc['api']}"
